@@ -76,6 +76,7 @@ def one_run(mode, seed, faults, wcap_seed=None):
         kw2['wcap'] = lambda n: r_.randint(1, n)
     sess = env.Session(mode, dev, fault=fault, tick=0.001, default_transport_timeout_s=None, exclusive=True, **kw2)
     sess.core.max_calls = 20000
+    sess.loop_per_call = (mode == 'async' and bool(faults) and min(faults) % 2 == 0)       # every other faulted async run: one event loop per public call (asyncio.run() each time)
     tr = []
     kw = dict(read_timeout_s=2.0, transport_timeout_s=1.0)
     for op in spec['ops']:
